@@ -76,7 +76,8 @@ def expr(e):
     if k == "idx":
         return e["n"] + sfx(e) + "(" + ", ".join(expr(x) for x in e["subs"]) + ")"
     if k == "fld":
-        return expr(e["base"]) + "." + e["f"]
+        # a member may be written with the suffix of its type (R.S$, A(1).N&)
+        return expr(e["base"]) + "." + e["f"] + (SUFFIX[e["t"]] if e.get("sfxspell") and e["t"] != "U" else "")
     if k == "bound":
         name = "LBOUND" if e["which"] == "l" else "UBOUND"
         if e.get("nodim"):
